@@ -995,6 +995,205 @@ pub fn long_file_n(rng: &mut Rng, mode: u8, n: usize) -> OsuFile {
     f
 }
 
+/// A mid-size map (by default 130 - 500 objects) built from *phases*, the way charted maps are: a stretch on a steady
+/// beat, a stretch cycling through two to four gaps, a stretch where no two gaps are alike, an accelerating stretch;
+/// each phase with its own object kinds (circles only / short sliders only / mixed), placement (random, stacked, stream)
+/// and - for taiko - colour pattern (long mono streaks, alternation, random). Look-back windows of the skills (taiko's 64
+/// ratio pairs, osu!'s 32-object history, rhythm windows in ms) end inside a *different* phase than the current object only
+/// on such maps; short maps never fill the windows and statistically uniform long maps fill them with more of the same.
+/// Two maps in ten consist of circles only, one in ten of sliders only.
+pub fn phased_file(rng: &mut Rng, mode: u8, n: usize) -> OsuFile {
+    let mut f = OsuFile {
+        version: Some(14),
+        mode,
+        stack_leniency: Some(rng.pick(&["0.7", "0.7", "1", "0.3", "0"]).to_string()),
+        hp: Some(rng.range(0, 10).to_string()),
+        cs: Some(if mode == 3 { rng.range(4, 9).to_string() } else { rng.range(2, 7).to_string() }),
+        od: Some(rng.range(0, 10).to_string()),
+        ar: Some(rng.range(0, 10).to_string()),
+        sm: Some(rng.pick(&["1.4", "1", "2.2", "0.8"]).to_string()),
+        tr: Some(rng.pick(&["1", "2", "1"]).to_string()),
+        ..OsuFile::default()
+    };
+    let bl = *rng.pick(&[300.0, 333.333333333333, 400.0, 500.0, 250.0, 461.538461538462]);
+    f.timing.push(TimingLine {
+        time: "0".into(),
+        beat_len: fnum(bl),
+        meter: "4".into(),
+        uninherited: Some(true),
+        effects: Some(0),
+    });
+    let keys = f.cs.as_ref().and_then(|c| c.parse::<i64>().ok()).unwrap_or(4).max(1);
+    let map_kinds = match rng.below(10) {
+        0 | 1 => 1u8,
+        2 => 2,
+        _ => 0,
+    };
+    let mut t = 200.0 + rng.range(0, 2000) as f64;
+    let mut made = 0usize;
+    let mut first_phase = true;
+    let mut prev_rhythm = 0u64;
+    let (mut px, mut py) = (256i64, 192i64);
+    while made < n {
+        // ---- one phase
+        let len = match rng.below(6) {
+            0 => rng.range(3, 9) as usize,
+            1 | 2 => rng.range(10, 40) as usize,
+            3 => rng.range(60, 135) as usize,
+            4 => rng.range(126, 140) as usize, // just around twice the 64-pair look-back
+            _ => rng.range(30, 200) as usize,
+        }
+        ;
+        // rhythm of the phase: 0 steady, 1 cycle, 2 all gaps different, 3 accelerating
+        let mut rhythm = if first_phase { *rng.pick(&[0u64, 0, 1, 2]) } else { rng.below(4) };
+        let mut len = len;
+        // a repetitive stretch is often followed by a long stretch without any repetition (and the other way round): the
+        // look-back of an object deep inside the second one then ends exactly where the first one does
+        let mut long_cycle = false;
+        if !first_phase && prev_rhythm == 0 && rng.below(5) < 2 {
+            // (the skills snap interval ratios to a few common values: "without repetition" as they see it is mostly a cycle
+            // of three or four different gaps, where neighbours at distance two never agree)
+            rhythm = *rng.pick(&[2u64, 1, 1]);
+            long_cycle = true;
+            len = rng.range(120, 200) as usize;
+        } else if !first_phase && prev_rhythm != 0 && rng.below(5) < 2 {
+            rhythm = 0;
+            len = rng.range(4, 30) as usize;
+        }
+        let len = len.min(n - made);
+        prev_rhythm = rhythm;
+        first_phase = false;
+        let cycle: Vec<f64> = if long_cycle {
+            let mut pool = vec![bl / 4.0, bl / 2.0, bl, 100.0, 200.0, 150.0, bl / 3.0, 250.0];
+            rng.shuffle(&mut pool);
+            pool.truncate(rng.range(3, 4) as usize);
+            pool
+        } else {
+            (0..rng.range(2, 4)).map(|_| *rng.pick(&[bl / 4.0, bl / 2.0, bl, 100.0, 200.0, 150.0])).collect()
+        };
+        let base = *rng.pick(&[bl / 4.0, bl / 2.0, bl / 2.0, bl, bl / 3.0, 100.0, 200.0]);
+        let mut acc = base.max(40.0) * 2.0;
+        let kinds = if map_kinds != 0 { map_kinds } else { *rng.pick(&[0u8, 1, 1, 2, 0]) };
+        let placement = rng.below(4); // 0 random, 1 stacks, 2 stream, 3 far jumps
+        let colour = rng.below(3); // taiko: 0 random, 1 long mono streaks, 2 alternating
+        let mut streak_left = 0u64;
+        let mut streak_sound = 0u32;
+        for k in 0..len {
+            let gap = match rhythm {
+                0 => base,
+                1 => cycle[k % cycle.len()],
+                2 => 61.0 + (rng.range(0, 400) as f64) + (k % 7) as f64 * 3.0,
+                _ => {
+                    acc = (acc * 0.97).max(45.0);
+                    acc
+                }
+            }
+            .max(30.0);
+            let (x, y) = if mode == 3 {
+                let col = rng.range(0, keys - 1);
+                ((col * 512 + 256) / keys, 192)
+            } else {
+                match placement {
+                    1 => {
+                        if k % 4 == 0 {
+                            px = rng.range(0, 512);
+                            py = rng.range(0, 384);
+                        }
+                        (px, py)
+                    }
+                    2 => {
+                        px = (px + rng.range(5, 30)).rem_euclid(512);
+                        py = (py + rng.range(-10, 10)).rem_euclid(384);
+                        (px, py)
+                    }
+                    3 => {
+                        px = if px < 256 { rng.range(400, 512) } else { rng.range(0, 100) };
+                        py = if py < 192 { rng.range(300, 384) } else { rng.range(0, 80) };
+                        (px, py)
+                    }
+                    _ => {
+                        px = rng.range(0, 512);
+                        py = rng.range(0, 384);
+                        (px, py)
+                    }
+                }
+            };
+            let want_slider = match kinds {
+                1 => false,
+                2 => true,
+                _ => rng.below(5) == 0,
+            };
+            let r = rng.below(200);
+            let (kind, dur) = if mode == 3 {
+                if r < 30 {
+                    let d = rng.range(100, 900) as f64;
+                    (ObjKind::Hold { end: fnum((t + d).round()) }, 0.0)
+                } else {
+                    (ObjKind::Circle, 0.0)
+                }
+            } else if r == 0 && kinds != 1 {
+                let d = rng.range(300, 1500) as f64;
+                (ObjKind::Spinner { end: fnum((t + d).round()) }, d)
+            } else if want_slider {
+                let len_px = rng.range(30, 160);
+                let slides = *rng.pick(&[1i64, 1, 1, 2, 3]);
+                let sm: f64 = f.sm.as_ref().and_then(|s| s.parse().ok()).unwrap_or(1.4);
+                let d = len_px as f64 / (100.0 * sm) * bl * slides as f64;
+                (
+                    ObjKind::Slider {
+                        curve: format!("L|{}:{}", (x + rng.range(-150, 150)).clamp(0, 512), (y + rng.range(-100, 100)).clamp(0, 384)),
+                        slides: slides.to_string(),
+                        length: Some(len_px.to_string()),
+                        edge_sounds: None,
+                        edge_sets: None,
+                    },
+                    d,
+                )
+            } else {
+                (ObjKind::Circle, 0.0)
+            };
+            let sound = if mode == 1 || mode == 0 {
+                match colour {
+                    1 => {
+                        if streak_left == 0 {
+                            streak_left = rng.range(2, 12) as u64;
+                            streak_sound = if streak_sound == 0 { *rng.pick(&[2u32, 8, 10]) } else { 0 };
+                        }
+                        streak_left -= 1;
+                        streak_sound
+                    }
+                    2 => {
+                        if k % 2 == 0 {
+                            0
+                        } else {
+                            8
+                        }
+                    }
+                    _ => *rng.pick(&[0u32, 0, 2, 8, 4, 12]),
+                }
+            } else {
+                *rng.pick(&[0u32, 0, 2, 8, 4])
+            };
+            f.objects.push(ObjLine {
+                x: x.to_string(),
+                y: y.to_string(),
+                time: fnum(t.round()),
+                extra_type: if k == 0 { 4 } else { 0 },
+                sound,
+                kind,
+                sample: None,
+            });
+            made += 1;
+            t += gap + dur;
+        }
+        // sometimes a break-sized pause between phases
+        if rng.below(4) == 0 {
+            t += rng.range(800, 6000) as f64;
+        }
+    }
+    f
+}
+
 /// Build a `ties` timing setup where several distinct beat lengths accumulate *equal* durations,
 /// so that `bpm()` has to break a tie.
 pub fn bpm_tie_file(rng: &mut Rng) -> OsuFile {
